@@ -30,6 +30,14 @@ type stateSpec struct {
 	// extraA > 0: the prefix carries no random transfers and account A sends extraA-1 further ones in the
 	// block of the conflict records (fixes the length and spare capacity of A's stored transfer log)
 	extraA int
+	// conf: further transactions with Conflicts{yConfl} in the blocks after the one of the conflict records
+	// (off = 1..gap), signed by A (yConfl's signer) or by B (no common signer)
+	conf []confAdd
+}
+
+type confAdd struct {
+	off int
+	by  string
 }
 
 var staleNames = []string{"", "feeperbyte-raised-a-little", "feeperbyte-raised-a-lot", "attribute-fee-raised", "sender-blocked",
@@ -51,6 +59,9 @@ func (s stateSpec) String() string {
 	}
 	if s.extraA > 0 {
 		r += fmt.Sprintf(" extraA=%d", s.extraA)
+	}
+	for _, c := range s.conf {
+		r += fmt.Sprintf(" conf+%d:%s", c.off, c.by)
 	}
 	return r
 }
@@ -258,7 +269,17 @@ func buildState(spec stateSpec, r *prng.R) *state {
 		st.prep = append(st.prep, st.produce(p, txs))
 	}
 	for i := 0; i < spec.gap; i++ {
-		st.prep = append(st.prep, st.produce(p, nil))
+		var txs []*transaction.Transaction
+		for _, c := range spec.conf {
+			if c.off == i+1 {
+				by := accA
+				if c.by == "B" {
+					by = accB
+				}
+				txs = append(txs, mkTx(by, accC.h, int64(60+i), txOpt{nonce: nn(), vub: vub, sysFee: sysFeeTransfer, conflicts: []util.Uint256{st.yConfl.Hash()}}))
+			}
+		}
+		st.prep = append(st.prep, st.produce(p, txs))
 	}
 	if spec.stale > 0 {
 		st.buildStale(p, nn, vub)
@@ -283,9 +304,9 @@ func buildState(spec stateSpec, r *prng.R) *state {
 	o := func(vubv uint32) txOpt { return txOpt{nonce: nn(), vub: vubv, sysFee: sysFeeTransfer} }
 	st.label(st.onChain, false, "already-on-chain")
 	paysEnough := st.fpb == baseFeePerByte                                                   // built below the tip, for the base FeePerByte
-	st.label(st.yConfl, paysEnough && st.h >= st.recAt+st.mtb(), "conflicts-with-on-chain") // valid again once the record is untraceable
+	st.label(st.yConfl, paysEnough && !st.conflictInWindow(st.yConfl), "conflicts-with-on-chain") // valid again once no conflicting transaction of its signer is traceable
 	st.label(st.zConfl, paysEnough, "conflict-record-of-another-signer")
-	st.label(st.wConfl, paysEnough && st.h >= st.recAt+st.mtb(), "conflict-record-of-second-signer")
+	st.label(st.wConfl, paysEnough && !st.conflictInWindow(st.wConfl), "conflict-record-of-second-signer")
 	oc := o(vub)
 	oc.conflicts = []util.Uint256{st.onChain.Hash()}
 	st.attrOnCh = st.label(mkTx(accB, accX.h, 3, oc), false, "conflicts-attr-names-on-chain-tx")
